@@ -251,4 +251,9 @@ def main(argv=None):
 
 
 if __name__ == "__main__":
-    sys.exit(main())
+    _rc = main()
+    # everything (evidence, replay files, report) is written by now; skip the interpreter's exit handlers: after
+    # several early-terminated worker pools multiprocessing's own finalizers can wait for ever
+    sys.stdout.flush()
+    sys.stderr.flush()
+    os._exit(_rc or 0)
